@@ -554,3 +554,107 @@ pub fn remove_full(rounds: u64, asynchronous: bool) -> LiveResult {
     }
     LiveResult { scenario: name, rounds: done, violations, detail }
 }
+
+/// C10 / C12 for AsyncCache: `wait()`, `clear()`, `remove()`, inserts and `close()` from different
+/// tasks on a multi-threaded runtime: every call returns (a watchdog reports tasks still pending long
+/// after the others have finished), and once a `close()` has returned Ok the cache is inert: insert
+/// returns false, lookups return nothing, `wait`/`clear`/`close` return Ok.
+pub fn async_protocol_storm(rounds: u64, seed: u64) -> LiveResult {
+    mark_client();
+    let mut rng = Rng::new(seed ^ 0xa57);
+    let rt = tokio::runtime::Builder::new_multi_thread().worker_threads(4).build().expect("tokio");
+    let mut violations = 0;
+    let mut detail = String::new();
+    for r in 0..rounds {
+        let delays: Vec<u64> = (0..4).map(|_| rng.below(300)).collect();
+        let close_delay = rng.below(2000);
+        let buf = *rng.pick(&[1usize, 4, 64]);
+        let (tx, rx) = std::sync::mpsc::channel::<Result<Vec<String>, String>>();
+        let fin = Arc::new(AtomicU64::new(0));
+        let fin2 = fin.clone();
+        rt.spawn(async move {
+            let c = build_async(1000, buf, 20, tokio::spawn);
+            let mut hs = Vec::new();
+            for t in 0..3u64 {
+                let c = c.clone();
+                let d = delays[t as usize];
+                let fin = fin2.clone();
+                hs.push(tokio::spawn(async move {
+                    std::thread::sleep(Duration::from_micros(d));
+                    for i in 0..20u64 {
+                        match (t + i) % 3 {
+                            0 => {
+                                let _ = c.try_insert(mk_key(i % 7, 0), i, 1).await;
+                            }
+                            1 => {
+                                let _ = c.wait().await;
+                            }
+                            _ => {
+                                if i % 5 == 0 {
+                                    let _ = c.clear().await;
+                                } else {
+                                    let _ = c.try_remove(&mk_key(i % 7, 0)).await;
+                                }
+                            }
+                        }
+                    }
+                    fin.fetch_add(1, Ordering::SeqCst);
+                }));
+            }
+            let closer = {
+                let c = c.clone();
+                let fin = fin2.clone();
+                tokio::spawn(async move {
+                    std::thread::sleep(Duration::from_micros(close_delay));
+                    let ok = c.close().await.is_ok();
+                    fin.fetch_add(1, Ordering::SeqCst);
+                    ok
+                })
+            };
+            let closed_ok = closer.await.unwrap_or(false);
+            let mut bad = Vec::new();
+            if closed_ok {
+                if c.insert(mk_key(99, 0), 1, 1).await {
+                    bad.push("insert returned true after close() had returned Ok".to_string());
+                }
+                for k in 0..7u64 {
+                    if c.get(&mk_key(k, 0)).await.is_some() {
+                        bad.push(format!("get(key {}) returned a value after close() had returned Ok", k));
+                        break;
+                    }
+                }
+                if c.wait().await.is_err() || c.clear().await.is_err() || c.close().await.is_err() {
+                    bad.push("wait/clear/close after close() did not return Ok".to_string());
+                }
+            }
+            for h in hs {
+                let _ = h.await;
+            }
+            let _ = tx.send(Ok(bad));
+        });
+        match rx.recv_timeout(Duration::from_secs(15)) {
+            Ok(Ok(bad)) => {
+                if !bad.is_empty() {
+                    violations += 1;
+                    if detail.is_empty() {
+                        detail = format!("AsyncCache round {}: {}", r, bad.join("; "));
+                    }
+                }
+            }
+            _ => {
+                violations += 1;
+                if detail.is_empty() {
+                    detail = format!(
+                        "AsyncCache round {}: a wait()/clear()/remove()/close() call is still pending 15 s after start ({} of 4 tasks finished)",
+                        r,
+                        fin.load(Ordering::SeqCst)
+                    );
+                }
+                // the runtime of this round is wedged: stop here (the process exits without joining it)
+                break;
+            }
+        }
+    }
+    std::mem::forget(rt);
+    LiveResult { scenario: "async_protocol_storm", rounds, violations, detail }
+}
